@@ -324,6 +324,70 @@ def run_search(shard):
     return acc
 
 
+DERIVED_SRC = ['Oc1ccccc1', 'c1ccc2ccccc2c1', 'CC(=O)CC(C)=O', 'Oc1ccccn1', 'c1c[nH]cn1', 'CC(=O)Nc1ccccc1', 'C1=CC=CC=C1O', 'OC=CC=O', 'NC(=O)c1cccnc1', 'CC=CC(O)=N', 'O=C1CCCCC1', 'c1ccccc1-c1ccccc1',
+               'Cc1cc(=O)[nH]c(C)n1', 'CC(O)=CC#N', 'OC1=CC=NC=C1']
+DERIVED_Q = ['C=C', 'C-C', 'C:C', '[C;z2]', '[C;z1]', '[C;z4]', '[O;h1]', '[O;h0]', '[N;h1]', '[N;h0]', 'C=O', 'C-O', 'C=N', 'C-N', '[C;h1]', '[C;h2]', '[A;a]', '[C;D2]', 'C=CC=C', 'C-;@C', 'C-;!@[N,O]', 'C=;@C']
+
+
+def run_derived(shard):
+    """objects the library derives from a molecule whose packed structure is already in its cache: the packed structure of the derived object must
+    describe the derived object (compiled path == reference path on it), for copies, enumerated Kekule forms, enumerated tautomers, substructures, unions"""
+    from chython import smiles, smarts
+    _enable()
+    k, nsh, tier = shard
+    acc = Acc()
+    qs = [(smarts(x), x) for x in DERIVED_Q]
+    for i, s in enumerate(DERIVED_SRC):
+        if i % nsh != k:
+            continue
+        for warm in (True, False):
+            m = smiles(s)
+            if any(a.implicit_hydrogens is None for _, a in m.atoms()):
+                m.kekule()
+                m.thiele()
+            if warm:
+                for q, _ in qs[:3]:
+                    list(q.get_mapping(m, automorphism_filter=False, _cython=True))   # fills the packed-structure cache of the source
+            derived = [('copy', m.copy()), ('copy keeping ring data', m.copy(keep_sssr=True, keep_components=True))]
+            try:
+                for j, f in enumerate(m.copy().enumerate_kekule() if not warm else m.enumerate_kekule()):
+                    derived.append(('Kekule form %d' % j, f))
+                    if j >= 5:
+                        break
+            except Exception:
+                pass
+            try:
+                for j, f in enumerate(m.enumerate_tautomers(full=True) if warm else m.copy().enumerate_tautomers(full=True)):
+                    derived.append(('tautomer %d' % j, f))
+                    if j >= 7:
+                        break
+            except Exception as e:
+                acc.ood['enumerate_tautomers raised %s' % type(e).__name__] += 1
+            atoms = list(m)
+            derived.append(('substructure', m.substructure(atoms[:max(2, len(atoms) // 2)])))
+            derived.append(('union', m.union(_shifted(smiles('CC=O'), max(atoms)))))
+            kk = m.copy()
+            kk.kekule()
+            derived.append(('kekule in place after search', kk))
+            if warm:
+                m2 = m
+                try:
+                    m2.kekule()
+                    derived.append(('source kekulised in place', m2))
+                except Exception:
+                    pass
+            for what, d in derived:
+                for q, qs_ in qs:
+                    compare(acc, q, d, 'derived object (%s, source %s) smarts=%s | %s' % (what.split(' ')[0] if what[-1].isdigit() else what, 'searched before' if warm else 'fresh', qs_, s))
+    return acc
+
+
+def _shifted(m, by):
+    m = m.copy()
+    m.remap({n: n + by for n in m})
+    return m
+
+
 def plan(tier, seed):
     st = [Stage('element x element', run_field, [('element', a, min(a + 8, 119)) for a in range(1, 119, 8)], 'query element 1..118 (+lists, A, M) x molecule element 1..118'),
           Stage('isotopes', run_field, [('isotope', a, min(a + 8, 119)) for a in range(1, 119, 8)], 'every element: (unspecified + every tabulated isotope)^2'),
@@ -332,6 +396,7 @@ def plan(tier, seed):
           Stage('neighbour / heteroatom counts', run_field, [('counts', k, 0) for k in range(8)], 'singletons and pairs within 0..14 x 0..14'),
           Stage('ring sizes', run_field, [('rings', k, 0) for k in range(8)], 'ring-size specs x rings 3..66, 70 and spiro pairs'),
           Stage('field pairs at boundaries', run_field, [('pairs', k, 0) for k in range(8)], 'every pair of 6 fields at {min, interior, max} x full boundary product on the molecule side'),
+          Stage('derived objects', run_derived, [(k, 15, tier) for k in range(15)], '15 source molecules x {searched before, fresh} x copies / enumerated Kekule forms / enumerated tautomers / substructure / union / in-place kekule x 21 queries reading bond orders, hydrogens, hybridisation'),
           Stage('search level', run_search, [(k, 32, tier) for k in range(32)], 'SMARTS of C07/C08/C19 x D(<=5,1) + cages + corpus stride %d, with and without scope' % (32 if tier == 'quick' else 4))]
     return st
 
@@ -371,6 +436,8 @@ def replay(rec):
         accs = [run_field(('rings', k, 0)) for k in range(8)]
     elif kind == 'field':
         accs = [run_field(('pairs', k, 0)) for k in range(8)]
+    elif head.startswith('derived object'):
+        accs = [run_derived((k, 15, 'quick')) for k in range(15)]
     else:
         accs = [run_search((k, 32, 'quick')) for k in range(32)]
     return [f for a in accs for f in a.fails if f['key'] == key]
